@@ -4,7 +4,11 @@ import (
 	"fmt"
 	"math/big"
 
+	cfg "github.com/lianxiangcloud/linkchain/config"
 	"github.com/lianxiangcloud/linkchain/libs/common"
+	"github.com/lianxiangcloud/linkchain/libs/crypto"
+	lt "github.com/lianxiangcloud/linkchain/libs/cryptonote/types"
+	"github.com/lianxiangcloud/linkchain/libs/cryptonote/ringct"
 	"github.com/lianxiangcloud/linkchain/libs/ser"
 	"github.com/lianxiangcloud/linkchain/types"
 	"verif/h/internal/chainkit"
@@ -44,116 +48,74 @@ func dump(b []byte, indent string, depth int) {
 func main() {
 	g, err := chainkit.BuildGenesis(chainkit.GenesisOpts{Seed: 1, NumAccounts: 4, Powers: []int64{10, 10, 10, 10}, Tokens: []common.Address{common.HexToAddress("0x1111")}})
 	must(err)
-	a, err := g.NewNode(chainkit.NodeOpts{})
+	dbs := g.CloneDBs()
+	si := &types.SignersInfo{MinSignerPower: 2, Signers: []*types.SignerEntry{{Power: 1, Addr: g.Accounts[0].Addr}, {Power: 1, Addr: g.Accounts[1].Addr}, {Power: 1, Addr: g.Accounts[2].Addr}}}
+	sib, err := ser.EncodeToBytes(si)
 	must(err)
+	dbs["txmgr"].Set([]byte(types.DBcontractCreateKey), sib)
+	a, err := chainkit.OpenNode(g, dbs, chainkit.NodeOpts{})
+	must(err)
+	a.App.SetLastChangedVals(0, a.Status.Validators.Copy().Validators)
 	b, err := g.NewNode(chainkit.NodeOpts{})
 	must(err)
-	r := rng.New(7)
-	ws := []*chainkit.UWallet{chainkit.NewUWallet(1, 0, 3), chainkit.NewUWallet(1, 1, 3)}
-	led := chainkit.NewLedger(ws)
-	lastCommit := chainkit.NilCommit()
-	step := func() {
-		blk, c, err := a.Step(g, lastCommit, b)
-		must(err)
-		lastCommit = c
-		led.ScanBlock(blk)
-		fmt.Println("height", blk.Height, "txs", blk.NumTxs, "unknown", led.Unknown)
-	}
-	e18, _ := new(big.Int).SetString("100000000000000000000", 10)
 
-	// plain tx
-	tx, _ := chainkit.NewTransfer(g.Accounts[0], 0, g.Accounts[1].Addr, big.NewInt(12345))
-	bz, _ := ser.EncodeToBytes(tx)
-	fmt.Println("plain tx", len(bz))
-	dump(bz, " ", 0)
-	fmt.Println("checkbasic", a.App.CheckTx(tx, true))
-	from, _ := tx.From()
-	fmt.Println("from", from == g.Accounts[0].Addr)
-	// stale cache via WithSignature
-	tx2, _ := chainkit.NewTransfer(g.Accounts[1], 0, g.Accounts[1].Addr, big.NewInt(12345))
-	v, rr, s := tx2.RawSignatureValues()
-	sig := make([]byte, 65)
-	copy(sig[32-len(rr.Bytes()):32], rr.Bytes())
-	copy(sig[64-len(s.Bytes()):64], s.Bytes())
-	sig[64] = byte(new(big.Int).Sub(v, big.NewInt(35+2*types.SignParam.Int64())).Uint64())
-	tx3, err := tx.WithSignature(types.GlobalSTDSigner, sig)
+	// CUT
+	mi := &types.ContractUpgradeMainInfo{FromAddr: g.Accounts[0].Addr, Recipient: cfg.ContractValidatorsAddr, AccountNonce: 0, Payload: []byte{0x00, 0x61, 0x73, 0x6d, 1, 0, 0, 0, 9, 9}}
+	s0, err := types.SignContractUpgradeTx(g.Accounts[0].Key, mi)
 	must(err)
-	f3, err := tx3.From()
-	fmt.Println("after WithSignature on warm tx: from==acct0?", f3 == g.Accounts[0].Addr, "==acct1?", f3 == g.Accounts[1].Addr, err)
-	bz3, _ := ser.EncodeToBytes(tx3)
-	var tx4 types.Transaction
-	must(ser.DecodeBytes(bz3, &tx4))
-	f4, err := tx4.From()
-	fmt.Println("re-decoded: from==acct0?", f4 == g.Accounts[0].Addr, "==acct1?", f4 == g.Accounts[1].Addr, err)
-
-	// homestead-signed
-	txh := types.NewTransaction(0, g.Accounts[1].Addr, big.NewInt(12345), chainkit.TransferGas(big.NewInt(12345)), nil, nil)
-	must(txh.Sign(types.STDHomesteadSigner{}, g.Accounts[0].Key))
-	fh, err := txh.From()
-	fmt.Println("homestead signed: from==acct0", fh == g.Accounts[0].Addr, err, "checkbasic", a.App.CheckTx(txh, true))
-	// other chain param
-	txo := types.NewTransaction(0, g.Accounts[1].Addr, big.NewInt(12345), chainkit.TransferGas(big.NewInt(12345)), nil, nil)
-	must(txo.Sign(types.MakeSTDSigner(big.NewInt(29154)), g.Accounts[0].Key))
-	fo, err := txo.From()
-	fmt.Println("other-chain signed: from==acct0", fo == g.Accounts[0].Addr, err, "checkbasic", a.App.CheckTx(txo, true))
-
-	// token tx
-	tt, _ := chainkit.NewTokenTransfer(g.Accounts[0], common.HexToAddress("0x1111"), 0, g.Accounts[1].Addr, big.NewInt(5))
-	bz, _ = ser.EncodeToBytes(tt)
-	fmt.Println("token tx")
+	s1, err := types.SignContractUpgradeTx(g.Accounts[1].Key, mi)
+	must(err)
+	cut := types.UpgradeContractTx(mi, [][]byte{s0, s1})
+	bz, err := ser.EncodeToBytes(cut)
+	must(err)
+	fmt.Println("CUT", len(bz))
 	dump(bz, " ", 0)
-	fmt.Println("checkbasic", a.App.CheckTx(tt, true))
+	var cut2 types.ContractUpgradeTx
+	must(ser.DecodeBytes(bz, &cut2))
+	fmt.Println("cut checkbasic", a.App.CheckTx(&cut2, true))
 
-	// A->U
-	for i := 0; i < 4; i++ {
-		dests := []types.DestEntry{chainkit.Dest(ws[0], 0, e18), chainkit.Dest(ws[0], 1, new(big.Int).Mul(e18, big.NewInt(2))), chainkit.Dest(ws[1], 2, e18)}
-		fee := chainkit.UtxoFeeAinToU(new(big.Int).Mul(e18, big.NewInt(4)))
-		tx, err := chainkit.NewAinTx(g.Accounts[0], uint64(i), dests, fee)
+	// MST
+	mmi := &types.MultiSignMainInfo{AccountNonce: 0, SupportTxType: types.TxContractCreateType, SignersInfo: *si}
+	sb, err := types.GenMultiSignBytes(*mmi)
+	must(err)
+	var vs []types.ValidatorSign
+	for _, v := range g.Vals[:3] {
+		sig, err := v.Priv.Sign(sb)
 		must(err)
-		if i == 0 {
-			bz, _ = ser.EncodeToBytes(tx)
-			fmt.Println("A->U tx", len(bz))
-			dump(bz, " ", 0)
-			// mutate ecdh
-			var m types.UTXOTransaction
-			must(ser.DecodeBytes(bz, &m))
-			m.RCTSig.EcdhInfo[0].Amount[0] ^= 1
-			fmt.Println("A->U ecdh mutant checkbasic:", a.App.CheckTx(&m, true))
-			var m2 types.UTXOTransaction
-			must(ser.DecodeBytes(bz, &m2))
-			m2.RCTSig.EcdhInfo = nil
-			fmt.Println("A->U ecdh dropped checkbasic:", a.App.CheckTx(&m2, true))
-			var m3 types.UTXOTransaction
-			must(ser.DecodeBytes(bz, &m3))
-			m3.RCTSig.OutPk[0].Mask[0] ^= 1
-			fmt.Println("A->U outpk mutant checkbasic:", a.App.CheckTx(&m3, true))
-		}
-		if err := a.Mempool.AddTx("", tx); err != nil {
-			fmt.Println("addtx A->U err", err)
-		}
+		vs = append(vs, types.ValidatorSign{Addr: v.Address(), Signature: sig.Bytes()})
 	}
-	step()
-	// U->U ring 1, two inputs
-	sp := led.Spendable(ws[0], common.EmptyAddress)
-	fmt.Println("spendable", len(sp))
-	for _, rs := range []int{1, 4} {
-		ins := []*chainkit.OwnedOut{sp[0], sp[1]}
-		sp = sp[2:]
-		fee := chainkit.UtxoFeeUinToU(a.App.GetUTXOGas())
-		out := new(big.Int).Sub(new(big.Int).Add(ins[0].Amount, ins[1].Amount), fee)
-		tx, err := led.NewUinTx(r, ws[0], ins, rs, []types.DestEntry{chainkit.Dest(ws[1], 0, out)})
-		must(err)
-		bz, _ = ser.EncodeToBytes(tx)
-		if rs == 1 {
-			fmt.Println("U->U tx ring", rs, len(bz))
-			dump(bz, " ", 0)
-		}
-		var o types.UTXOTransaction
-		must(ser.DecodeBytes(bz, &o))
-		fmt.Println("orig checkbasic ring", rs, a.App.CheckTx(&o, true))
-		// rebalance pseudo outs
-		var m types.UTXOTransaction
-		must(ser.DecodeBytes(bz, &m))
-		fmt.Println("pseudoouts", len(m.RCTSig.P.PseudoOuts), "base pseudo", len(m.RCTSig.PseudoOuts))
-	}
+	mst := types.NewMultiSignAccountTx(mmi, vs)
+	bz, err = ser.EncodeToBytes(mst)
+	must(err)
+	fmt.Println("MST", len(bz))
+	dump(bz, " ", 0)
+	var mst2 types.MultiSignAccountTx
+	must(ser.DecodeBytes(bz, &mst2))
+	fmt.Println("mst checkbasic", a.App.CheckTx(&mst2, true))
+	var mst3 types.MultiSignAccountTx
+	must(ser.DecodeBytes(bz, &mst3))
+	mst3.Signatures = mst3.Signatures[:2]
+	fmt.Println("mst 2 sigs checkbasic", a.App.CheckTx(&mst3, true))
+
+	// homestead manual
+	val := big.NewInt(12345)
+	txh := types.NewTransaction(0, g.Accounts[1].Addr, val, chainkit.TransferGas(val), nil, nil)
+	hb, err := ser.EncodeToBytes([]interface{}{txh.Nonce(), txh.GasPrice(), txh.Gas(), txh.To(), txh.Value(), txh.Data()})
+	must(err)
+	h := crypto.Keccak256(hb)
+	sig, err := crypto.Sign(h, g.Accounts[0].Key)
+	must(err)
+	txh2, err := txh.WithSignature(types.STDHomesteadSigner{}, sig)
+	must(err)
+	bz, _ = ser.EncodeToBytes(txh2)
+	var txh3 types.Transaction
+	must(ser.DecodeBytes(bz, &txh3))
+	fh, err := txh3.From()
+	fmt.Println("homestead manual: from==acct0", fh == g.Accounts[0].Addr, err, "checkbasic", a.App.CheckTx(&txh3, true))
+	fmt.Println("  mempool add:", a.Mempool.AddTx("", &txh3))
+
+	_ = b
+	_ = rng.New
+	_ = lt.Key{}
+	_ = ringct.Z
 }
